@@ -121,6 +121,12 @@ CHECKS = {
         text="TLC checks exhaustively (block sizes 2-4, data lengths 0..13, every source-answer / buffer / write-size sequence) that the code's algorithms refine the abstract chunking-independent specification; the real reader, writer and block helpers are then driven by TLC-generated environments (small and real sizes 8/16, lengths to 5000) and every recorded event is validated by TLC against the abstract specification, bytes included.",
         note="Trusts TLC, the scripted io.Reader/io.Writer that log requests and answers, and that sources return no error other than io.EOF. Exhaustive only for the small constants; real sizes are sampled by TLC simulation.",
         ref="DESIGN.md section 5 C19"),
+    "C20": dict(
+        level="model_checking",
+        technique="TLA+ specs ConcSm4 (block function as four steps on scratch storage; TLC refutes 'as if alone' for object-owned scratch, proves it for call-owned scratch and enumerates every interleaving, each replayed deterministically through verif gates on one real cipher object), ConcConn / ConcConnMC (Write / Read / Close of one connection as atomic operations on two byte streams, consequences model-checked) and ConcConnTrace (histories of real connections, invocation and response stamped by one counter, validated by TLC searching the linearisation points); stress drivers for every shared object of the statement whose results are compared with the sequential ones, all run under the Go race detector as the sensor of the no-data-race clause",
+        text="All 70 (thorough: 34 650) interleavings of 2 (3) concurrent Encrypt/Decrypt calls x 4 steps on one sm4 cipher are executed through the gates and each call must return its sequential block. Drivers with 2..32 goroutines: package-level sign / verify / encrypt / decrypt / SM3 / SM4-ECB / certificate parse / chain verification on separate data; one cipher.Block shared raw and under CBC; one hash constructor under HMAC; one root + intermediate CertPool; PKCS#7 parse and envelope; first use of the curve in a fresh process; SetIV with the CBC helper (result must be the CBC encryption under one of the installed IVs); GMSSL and TLS 1.2 handshakes on one server Config with session tickets, key rotation every 3 ms and a shared client session cache. Connection histories: GMSSL (CBC) and TLS 1.2 (GCM) connections over loopback TCP with 1..4 writers and 1..2 readers on one end, 1..3 writers on the other, self-describing messages of 64 B..40 kB, Close after or during the traffic; every history must be explained by atomic operations (contiguous payloads, per-writer order, no successful Write after Close, errors only once an end has closed). Any race report whose top frames are in the library is a violation.",
+        note="Exhaustive interleaving only for the sm4 object (gated); the connection and Config are explored by stress under the race detector plus history validation, which sees what the scheduler happens to produce. A failed Write is modelled as non-atomic (its records may be read before the close that fails it). Read after the endpoint's own Close may still return bytes that had arrived. Races in the harness itself abort the check as an infrastructure error.",
+        ref="DESIGN.md section 5 C20"),
 }
 
 NOT_APPLICABLE = {
